@@ -666,7 +666,10 @@ def twin_cases(draw, tier):
         num_a, num_b, n = 1, 1, 2
     return {'p': p, 'q': q, 'num_a': num_a, 'num_b': num_b, 'fine': fine, 'coarse': coarse, 'op': op, 'vars': vs,
             'trace': draw(F.traces(vs, n=n)), 'join': draw(st.sampled_from(['or', 'and', 'implies'])),
-            'which': draw(st.sampled_from(['lower', 'upper']))}
+            # bare: the default unit is the fine one; one twin is written in the coarse unit, the other with the same numerals and
+            # no unit at all ([0:2s] next to [0:2] under the default unit ms)
+            'which': draw(st.sampled_from(['lower', 'upper', 'bare', 'bare'])),
+            'zero_lower': draw(st.booleans())}
 
 
 def check_twins(case):
@@ -683,6 +686,16 @@ def check_twins(case):
     upper = case.get('which') == 'upper' and na <= nb
     k2 = (na, nb) if upper else (na * ratio, nb * ratio)
     op = case['op']
+    bare = case.get('which') == 'bare'
+    if bare:
+        if op == 'since':
+            op = 'once'
+        if case.get('zero_lower'):
+            na = 0
+        k1 = (na * ratio, nb * ratio)          # written [na coarse : nb coarse]
+        k2 = (na, nb)                          # written [na : nb], read in the default unit (the fine one)
+        if k1 == k2:
+            return DISCARD('twins-coincide', ['mode:twins'])
 
     def node(k):
         return ('tbin', 'since', k[0], k[1], p, q) if op == 'since' else ('tun', op, k[0], k[1], p)
@@ -698,6 +711,12 @@ def check_twins(case):
 
     def bp(a, b):
         count[0] += 1
+        if bare:
+            if (a, b) == k1:
+                return '[%d%s:%d%s]' % (na, coarse, nb, coarse)
+            if (a, b) == k2:
+                return '[%d:%d]' % (na, nb)
+            return '[%d%s:%d%s]' % (a, fine, b, fine)
         if (a, b) == k1:
             return '[%d%s:%d%s]' % (na, fine, nb, coarse)
         if (a, b) == k2:
@@ -710,9 +729,13 @@ def check_twins(case):
         return DISCARD('undefined', labels)
     kw = dict(unit=coarse, period=(1, fine, 0.1))
     tcol = [float(Fraction(i * U[fine], U[coarse])) for i in range(n)]
+    if bare:
+        kw = dict(unit=fine, period=(1, fine, 0.1))
+        tcol = [float(i) for i in range(n)]
+        labels.append('one-twin-without-unit')
     on = run_dt_on(text, feed, tr, time=tcol, **kw)
     off = run_dt_off(text, feed, tr, time=tcol, **kw)
-    desc = 'spec: %s\nsampling period 1%s, default unit %s\ntrace: %s' % (text, fine, coarse, tr)
+    desc = 'spec: %s\nsampling period 1%s, default unit %s\ntrace: %s' % (text, fine, kw['unit'], tr)
     if on[0] != 'ok' or off[0] != 'ok':
         bad = on if on[0] != 'ok' else off
         return FAIL('twins-raises:%s' % bad[1], desc + '\nraised %s: %s at %s' % (bad[1], bad[3], bad[4]), labels)
